@@ -13,7 +13,7 @@ TRUSTED_BASE = [
     "real GP wrappers (gpytorch, modelled): region centres compared with predict() on the full design matrix at 1e-9",
     "extraction with ExtrOcamlBasic only + driver; OCaml 4.13.1",
 ]
-ASSUMPTIONS = ["touching rectangles (a shared face) are treated by the library as disjoint: recorded finding C14-touching-intersect"]
+ASSUMPTIONS = []
 
 
 class StubModel:
@@ -222,7 +222,7 @@ def extra_checks(ctx):
                             viol.append({"signature": "predict-mean-shape-N1" if len(idxs) == 1 else "gp-update-centre",
                                          "message": f"{cls.__name__} m={m}: after update(indices={idxs}, {ctype}) design {i} is centred at {np.asarray(c).tolist()} but predict() on the full matrix gives {full_mu[i].tolist()}",
                                          "replay": {"kind": "gp", "cls": cls.__name__, "idxs": idxs}})
-    # intersect: overlap -> set intersection, strictly separated -> new; touching -> recorded finding
+    # intersect: overlap or touching (shared face) -> set intersection, strictly separated -> new
     for _ in range(200 if ctx.quick else 3000):
         m = rng.choice([1, 2, 3])
         lo = [dy(rng, -2, 2, 4) for _ in range(m)]; up = [a + rng.choice([0.25, 0.5, 1.0, 2.0]) for a in lo]
